@@ -44,3 +44,29 @@ PROGS += both("string", "var s = \"abc\"\n", ind("s = s .. \"!\""), "println(s)\
 CLO = "let xs = [1, 2, 3]\nlet f = () -> {\n    xs.push(99)\n    xs.len()\n}\n"
 _c = both("closure_array", CLO, ind("let k = f()"), "println(xs.len())\n", "let k = f()\n", ind("println(f())"), None)
 PROGS += [(_c[0][0], _c[0][1], "3\n"), (_c[1][0], _c[1][1], "4\n")]
+
+# ---- records mixing scalar and heap fields in one struct (Job{id, items, label})
+JOB = "type Job = {\n    id: int\n    items: array<int>\n    label: string\n}\nlet j = Job(7, [1, 2, 3], \"a\" .. \"b\")\n"
+JOB_MUT = "j.items.push(99)\nj.items[0] = 77\nj.id = 8\n"
+JOB_PRINT = "println(j.items.len())\nprintln(j.items[0])\nprintln(j.id)\nprintln(j.label)\n"
+PROGS += both("mixed_struct", JOB, ind(JOB_MUT), JOB_PRINT, JOB_MUT, ind(JOB_PRINT), "3\n1\n7\nab\n")
+
+# ---- the same through a CHANNEL.  The writer stays alive (blocked on a channel or waiting for `done`) until the end,
+# so the known "finished writer" finding (C09.chan.write.ownership) is not involved.
+CHAN_HEAD = "let c: channel<Job> = channel()\nlet got: channel<int> = channel()\n" + HEAD
+R_MUT = "r.items.push(99)\nr.items[0] = 77\nr.id = 8\n"
+R_PRINT = "println(r.items.len())\nprintln(r.items[0])\nprintln(r.id)\nprintln(r.label)\n"
+CHAN_PROGS = [
+    # writer = task (kept alive on go.read()); the reader (main) mutates what it received; the writer prints its own value
+    ("chan_mixed_struct.reader_mutates",
+     JOB + CHAN_HEAD + "task {\n    c.write(j)\n    go.read()\n" + ind(JOB_PRINT) + "    done.write(1)\n}\n"
+     "let r = c.read()\n" + R_MUT + "go.write(1)\ndone.read()\n", "3\n1\n7\nab\n"),
+    # writer = main (alive to the end); it mutates its value after the task has received it; the task prints what it received
+    ("chan_mixed_struct.writer_mutates",
+     JOB + CHAN_HEAD + "task {\n    let r = c.read()\n    got.write(1)\n    go.read()\n" + ind(R_PRINT) + "    done.write(1)\n}\n"
+     "c.write(j)\ngot.read()\n" + JOB_MUT + "go.write(1)\ndone.read()\n", "3\n1\n7\nab\n"),
+    # values are delivered once and in order (two mixed records)
+    ("chan_mixed_struct.order",
+     JOB + CHAN_HEAD + "task {\n    let r1 = c.read()\n    let r2 = c.read()\n    println(r1.id)\n    println(r2.id)\n    println(r2.items.len())\n"
+     "    done.write(1)\n}\nc.write(j)\nc.write(Job(9, [4], \"z\"))\ndone.read()\n", "7\n9\n1\n"),
+]
